@@ -169,9 +169,18 @@ def sine_transform(V, k, rmax=500.0):
     return KAPPA * 2 / k * tot, KAPPA * 2 / k * err
 
 
-def _strict_decrease(y, x):
+def _strict_decrease(y, x, quadratic=False):
+    """Strict decrease between neighbouring sample points that the input dtype can resolve.
+
+    The dense grids are always resolvable; a case-specific point that happens to lie very close to a grid point is
+    not (f(k^2) is flat at k = 0: between k = 0 and k = 0.0017 it falls by ~3e-6 relative, below float32 rounding of
+    the evaluation), so such a pair is skipped instead of reporting rounding noise as a violation."""
+    single = np.asarray(x).dtype == np.float32 or np.asarray(y).dtype == np.float32
+    x = np.asarray(x, dtype=np.float64)
+    gap = np.diff(x ** 2) if quadratic else np.diff(x) / np.maximum(x[1:], 1e-300)
+    resolvable = gap > (1e-4 if single else 1e-11)
     d = np.diff(y)
-    bad = np.nonzero(~(d < 0))[0]
+    bad = np.nonzero(~(d < 0) & resolvable)[0]
     if len(bad) == 0:
         return True, None
     i = int(bad[0])
@@ -222,14 +231,14 @@ def check(ctx, case):
             f = np.asarray(F(k_in ** 2), dtype=np.float64)
             ctx.expect(np.isfinite(f).all() and (f > 0).all(), "scattering-factor-positive", table=table, symbol=sym,
                        min=float(np.nanmin(f)), dtype=np.dtype(dtype).name)
-            ok, w = _strict_decrease(f, k_in)
+            ok, w = _strict_decrease(f, k_in, quadratic=True)
             ctx.expect(ok, "scattering-factor-decreasing", table=table, symbol=sym, witness=w, dtype=np.dtype(dtype).name)
             # the projected forms inherit both (auxiliary: a sign error in a Bessel term shows here first)
             vp = np.asarray(VP(r_in), dtype=np.float64)
             pf = np.asarray(PF(k_in ** 2), dtype=np.float64)
             ctx.expect((vp > 0).all() and _strict_decrease(vp, r_in)[0], "potential-decreasing", table=table, symbol=sym,
                        what="projected potential", dtype=np.dtype(dtype).name)
-            ctx.expect((pf > 0).all() and _strict_decrease(pf, k_in)[0], "scattering-factor-decreasing", table=table,
+            ctx.expect((pf > 0).all() and _strict_decrease(pf, k_in, quadratic=True)[0], "scattering-factor-decreasing", table=table,
                        symbol=sym, what="projected scattering factor", dtype=np.dtype(dtype).name)
 
         judged = {"proj": 0, "hankel": 0, "sine": 0}
